@@ -5,7 +5,7 @@ set -u
 LOG=${1:-/tmp/regress2.log}
 export VLS_REPO=/tmp/repo2 VERIF_CACHE=/tmp/r2cache VERIF_EVIDENCE_DIR=/tmp/r2cache/evidence
 git -C /repo worktree list | grep -q /tmp/repo2 || git -C /repo worktree add --detach /tmp/repo2 HEAD -f >/dev/null 2>&1
-git -C /tmp/repo2 checkout -q --detach $(git -C /repo rev-parse HEAD) && git -C /tmp/repo2 reset -q --hard
+git -C /tmp/repo2 reset -q --hard; git -C /tmp/repo2 clean -fdq; git -C /tmp/repo2 checkout -q --detach $(git -C /repo rev-parse HEAD)
 mkdir -p /tmp/r2cache; [ -d /tmp/r2cache/target ] || cp -a /verif/.cache/target /tmp/r2cache/target
 cd /verif
 : > $LOG
